@@ -71,6 +71,7 @@
 #include <deque>
 #include <exception>
 #include <optional>
+#include <pthread.h>
 #include <string>
 #include <type_traits>
 #include <unordered_set>
@@ -202,7 +203,7 @@ Val cv_ch(Ch &&c)
 }
 
 Val cv_ushort(unsigned short &&v) { return Val::integer(static_cast<long long>(v)); }
-Val cv_short(short &&v) { return Val::integer(static_cast<long long>(v)); }
+[[maybe_unused]] Val cv_short(short &&v) { return Val::integer(static_cast<long long>(v)); }
 
 Val cv_pair(fcppt::tuple::object<Val, Val> &&t)
 {
@@ -510,12 +511,16 @@ std::unordered_set<Ch> decode_set(std::string const &s)
 // ---------------------------------------------------------------------------------------------
 // ref:<i> - indirection to a rule that is filled in after all rules have been built
 // ---------------------------------------------------------------------------------------------
+// Not part of fcppt: a left-recursive grammar (e.g. "ref:0") recurses forever in the library. So that
+// such a line does not take the whole process down, more than max_ref_depth nested ref calls end the
+// parse with the result line "exc:depth". main() runs everything on a thread with a large stack so
+// that max_ref_depth levels of the deepest accepted rule always fit.
 struct depth_exceeded
 {
 };
 
 unsigned ref_depth = 0;
-constexpr unsigned max_ref_depth = 600;
+constexpr unsigned max_ref_depth = 200;
 
 struct depth_guard
 {
@@ -980,4 +985,26 @@ std::string handle(std::vector<std::string> const &t)
 }
 }
 
-int main() { return vh::run(handle); }
+namespace
+{
+int exit_code = 0;
+
+void *thread_main(void *)
+{
+  exit_code = vh::run(handle);
+  return nullptr;
+}
+}
+
+int main()
+{
+  pthread_attr_t attr;
+  pthread_t thread;
+  if (pthread_attr_init(&attr) == 0 && pthread_attr_setstacksize(&attr, std::size_t{1} << 30U) == 0 &&
+      pthread_create(&thread, &attr, thread_main, nullptr) == 0)
+  {
+    pthread_join(thread, nullptr);
+    return exit_code;
+  }
+  return vh::run(handle);
+}
